@@ -194,7 +194,86 @@ fn run_serve(case: &Value, trace: &mut Trace) {
     let _ = std::fs::remove_file(&path);
 }
 
+/// The daemon object is dropped while its connection is still up (no shutdown request, no wait): its threads must go away
+/// and the peer must see end-of-stream.  `sent`: what the peer has done before ("nothing", "part" of a header, one answered
+/// round "trip").
+fn run_dropconn(case: &Value, trace: &mut Trace) {
+    let sent = case["sent"].as_str().unwrap_or("nothing");
+    let log = Arc::new(Log { m: Mutex::new(Vec::new()), cv: Condvar::new() });
+    let cfg = Cfg { nq: 2, maxq: 256, masks: vec![1, 2], features: (1 << 30) | 1, pf: 0xffff, exit: true, exit_pipe: case["id"].as_u64().unwrap_or(0) % 2 == 1, fail_update_memory: false };
+    let tb = Arc::new(TB::<VringRwLock<GM>>::new(cfg, log));
+    let path = sock_path();
+    let threads_before = thread_count();
+    let mut daemon = VhostUserDaemon::new("vh-daemon".to_string(), tb, GuestMemoryAtomic::new(GuestMemoryMmap::new())).unwrap();
+    let mut listener = Listener::new(&path, true).unwrap();
+    let peer = UnixStream::connect(&path).unwrap();
+    daemon.start(&mut listener).unwrap();
+    let mut msg = Vec::new();
+    msg.extend_from_slice(&1u32.to_le_bytes());
+    msg.extend_from_slice(&1u32.to_le_bytes());
+    msg.extend_from_slice(&0u32.to_le_bytes());
+    match sent {
+        "part" => {
+            let _ = raw_send_all(&peer, &msg[..5], &[]);
+        }
+        "trip" => {
+            let _ = raw_send_all(&peer, &msg, &[]);
+            let mut buf = [0u8; 20];
+            let mut got = 0;
+            peer.set_read_timeout(Some(Duration::from_secs(30))).unwrap();
+            while got < 20 {
+                match raw_recv(&peer, &mut buf[got..], 0) {
+                    Ok((n, _)) if n > 0 => got += n,
+                    _ => break,
+                }
+            }
+        }
+        _ => {}
+    }
+    trace.emit(json!({"ev": "reset", "id": case["id"], "callers": 0, "peer": "nothing", "peer_closes": false, "serve": true}));
+    let dropped = guarded_drop(daemon);
+    // the peer must see end-of-stream (final only with the daemon's threads asleep or gone)
+    peer.set_read_timeout(Some(Duration::from_secs(5))).unwrap();
+    let t_eof = Instant::now();
+    let mut buf = [0u8; 256];
+    let peer_sees = loop {
+        match raw_recv(&peer, &mut buf, 0) {
+            Ok((0, _)) => break "eof",
+            Ok(_) => {}
+            Err(e) if e.kind() == std::io::ErrorKind::WouldBlock || e.kind() == std::io::ErrorKind::TimedOut => {
+                if all_blocked(&tids_named("vh-daemon"), &[]) || t_eof.elapsed() > Duration::from_secs(120) {
+                    break "no_eof";
+                }
+            }
+            Err(_) => break "eof",
+        }
+    };
+    let leftover = || {
+        let mut v = tids_named("vring_worker");
+        v.extend(tids_named("vh-daemon"));
+        v
+    };
+    let t0 = Instant::now();
+    let mut after = thread_count();
+    while after > threads_before && (t0.elapsed() < Duration::from_secs(10) || (t0.elapsed() < Duration::from_secs(120) && !all_blocked(&leftover(), &[]))) {
+        std::thread::sleep(Duration::from_millis(2));
+        after = thread_count();
+    }
+    trace.emit(json!({"ev": "dropconn", "sent": sent, "dropped": dropped, "peer_sees": peer_sees, "threads_before": threads_before, "threads_after": after,
+        "cut": 0, "len": 0, "bodied": false, "res": "", "workers_started": 0, "workers_left": 0, "exit": true, "before": 0, "after": 0}));
+    drop(listener);
+    let _ = std::fs::remove_file(&path);
+    if after > threads_before {
+        // threads left behind would be counted against the next cases
+        trace.flush();
+        std::process::exit(77);
+    }
+}
+
 pub fn run_case(case: &Value, trace: &mut Trace) {
+    if case["dropconn"].as_bool() == Some(true) {
+        return run_dropconn(case, trace);
+    }
     if case["serve"].as_bool() == Some(true) {
         return run_serve(case, trace);
     }
